@@ -149,6 +149,7 @@ func cmdCheck(args []string) int {
 		if hs.MaxSteps > 0 {
 			cfg.MaxSteps = hs.MaxSteps
 		}
+		cfg.Merge = hs.Merge
 		if hs.MaxPaths == 0 {
 			hs.MaxPaths = 2_000_000
 		}
